@@ -16,6 +16,12 @@ abbrev PP := PedParams Fq
 
 def ped (h : Fq) (gs : List Fq) : PP := ⟨h, gs⟩
 
+/-- The three verifier calls of the driver as named terms, elaborated here with the executed
+instances only; `Props/ExecInstance.lean` states the property theorems about exactly these. -/
+def execPsVerify (pk : PubKey Fq Fq) (σ : Sig Fq) (ms : List Fq) : Bool := psVerify Fq.e pk σ ms
+def execCpVerify (pp : PP) (p : CProof Fq Fq) (c : Fq) : Bool := cpVerify pp p c
+def execVerifyOpening (pp : PP) (c bf : Fq) (ms : List Fq) : Bool := verifyOpening pp c bf ms
+
 abbrev St := Stream Fq Fq Fq
 
 /-- stream items: `s<hex>` scalar draw, `a<hex>` G1 draw, `b<hex>` G2 draw, `r<hex bytes>` raw -/
@@ -143,7 +149,7 @@ def encFq (x : Fq) : List UInt8 := encLE 32 x.v
 
 /-- `Scalar::from_bytes`: canonical decoding, `none` for values `≥ q` or a wrong length -/
 def decFq (bs : List UInt8) : Option Fq :=
-  if bs.length = 32 ∧ decLE bs < q then some ⟨decLE bs⟩ else none
+  if h : bs.length = 32 ∧ decLE bs < q then some ⟨decLE bs, h.2⟩ else none
 
 def tRevPair (p : RevPair Fq) : String := join [tV "ok", tS p.lock, tS p.secret, tN p.index]
 
@@ -225,7 +231,7 @@ def dispatch (args : List String) : Option String :=
   -- Pointcheval–Sanders (C07, C08, C19)
   | ["ps-verify", g1, y1s, g2, x2, y2s, s1, s2, ms] => do
       let pk := mkPk (← parseFq g1) (← parseList y1s) (← parseFq g2) (← parseFq x2) (← parseList y2s)
-      pure (tB (psVerify Fq.e pk ⟨← parseFq s1, ← parseFq s2⟩ (← parseList ms)))
+      pure (tB (execPsVerify pk ⟨← parseFq s1, ← parseFq s2⟩ (← parseList ms)))
   | ["ps-sign", x, ys, h, ms] => do
       let sk : SecKey Fq Fq := ⟨← parseFq x, ← parseList ys, 0⟩
       pure (tSig (Sig.sign sk (← parseFq h) (← parseList ms)))
@@ -253,7 +259,7 @@ def dispatch (args : List String) : Option String :=
       pure (join [tS p.C, tS p.T, tS p.zbf, tL p.zs])
   | ["cp-verify", h, gs, cC, cT, zbf, zs, c] => do
       let p : CProof Fq Fq := ⟨← parseFq cC, ← parseFq cT, ← parseFq zbf, ← parseList zs⟩
-      pure (tB (cpVerify (ped (← parseFq h) (← parseList gs)) p (← parseFq c)))
+      pure (tB (execCpVerify (ped (← parseFq h) (← parseList gs)) p (← parseFq c)))
   | ["srp-verify", g1, y1s, cC, cT, zbf, zs, c] => do
       let pk := mkPk (← parseFq g1) (← parseList y1s) 0 0 []
       let p : CProof Fq Fq := ⟨← parseFq cC, ← parseFq cT, ← parseFq zbf, ← parseList zs⟩
@@ -401,7 +407,7 @@ def dispatch (args : List String) : Option String :=
         | "close", [r] =>
           match c.close (← parseFq r) with
           | some m => pure (join [tV "closing", tSig m.sig, tS m.cid, tS m.lock, tN m.cb, tN m.mb,
-              tB (psVerify Fq.e pk m.sig (m.msg cl))])
+              tB (execPsVerify pk m.sig (m.msg cl))])
           | none => pure (tV "no-close")
         | _, _ => none
       | _ => none
@@ -418,7 +424,7 @@ def dispatch (args : List String) : Option String :=
   | ["open", h, gs, c, bf, ms] => do
       let h ← parseFq h; let gs ← parseList gs; let c ← parseFq c; let bf ← parseFq bf
       let ms ← parseList ms
-      pure (tB (verifyOpening (ped h gs) c bf ms))
+      pure (tB (execVerifyOpening (ped h gs) c bf ms))
   | ["ped-validate", h, gs] => do
       let h ← parseFq h; let gs ← parseList gs
       pure (tB (ped h gs).validate)
